@@ -62,6 +62,12 @@ func must(err error) {
 	}
 }
 
+// BlockHook, if set, is called before every block a world is fed (with the
+// 1-based count of blocks fed so far); blocks the hook itself adds do not
+// count. C16 uses it to upgrade contracts in the middle of another engine's
+// history.
+var BlockHook func(w *World, n int)
+
 // RepoDir is the tree under verification.
 func RepoDir() string {
 	if d := os.Getenv("VERIF_REPO"); d != "" {
@@ -216,6 +222,7 @@ func (s Signer) witness(magic netmode.Magic, tx *transaction.Transaction) transa
 
 // Deployed describes a contract living in the world.
 type Deployed struct {
+	Repo     string // contracts/<Repo> if this is a repository contract, "" for probes
 	Name     string
 	Hash     util.Uint160
 	ID       int32
@@ -242,6 +249,8 @@ type World struct {
 	Opts       WorldOpts
 	Journal    []*JBlock // recorded history (only when RecordJournal was set at creation)
 	record     bool
+	inHook     bool
+	blocksFed  int
 	pendingObs []*state.AppExecResult
 	txMeta     map[*transaction.Transaction]*JTx
 }
@@ -396,6 +405,12 @@ func (w *World) AddBlock(txs []*transaction.Transaction, dtMillis uint64) []*sta
 		dtMillis = 1
 	}
 	w.FinishJournal()
+	if BlockHook != nil && !w.inHook {
+		w.blocksFed++
+		w.inHook = true
+		BlockHook(w, w.blocksFed)
+		w.inHook = false
+	}
 	last, err := w.BC.GetBlock(w.BC.GetHeaderHash(w.BC.BlockHeight()))
 	must(err)
 	b := &block.Block{
@@ -491,6 +506,9 @@ func (w *World) TryDeploy(key string, a *Artifact, data any, signers []Signer) (
 		harnessf("deployed contract %s not found", key)
 	}
 	d := &Deployed{Name: key, Hash: h, ID: cs.ID, Manifest: &cs.Manifest}
+	if !a.Probe {
+		d.Repo = a.Name
+	}
 	w.C[key] = d
 	return d, aer
 }
